@@ -10,8 +10,8 @@ CONSTANTS
   Defect = "none"
   KeepHist = FALSE
   MaxPut = 3
-  MaxRefresh = 3
-  MaxData = 3
+  MaxRefresh = 2
+  MaxData = 2
 VIEW view
 INVARIANTS TypeOK LocationsAreValues CacheAgreesWithDB CachedIsLookup ReadersSeeOneVersion FailedRefreshKeepsOld QuiescentConsistent SubnetContract SubnetInCountry UnknownIsNone SharedByKey DesiredLength
 CHECK_DEADLOCK FALSE
